@@ -1,3 +1,3 @@
 #!/bin/sh
 # usage: run_monitor.sh <trace.ndjson> <metadir>   (prints TLC output)
-TRACE="$1" JAVA_TOOL_OPTIONS="-Xss1g -Dtlc2.tool.queue.IStateQueue=StateDeque" exec timeout ${MON_TIMEOUT:-3000} java -XX:+UseParallelGC -Xmx${MON_XMX:-3g} -cp /opt/veriftools/tla/tla2tools.jar:/opt/veriftools/tla/CommunityModules-deps.jar tlc2.TLC -workers 1 -metadir "$2" -cleanup -noGenerateSpecTE -config /verif/spec/Monitor.cfg /verif/spec/Monitor.tla
+TRACE="$1" JAVA_TOOL_OPTIONS="-Xss1g -Dtlc2.tool.queue.IStateQueue=StateDeque" exec timeout ${MON_TIMEOUT:-3000} java -XX:+UseParallelGC -Xmx${MON_XMX:-3g} -cp /opt/veriftools/tla/tla2tools.jar:/opt/veriftools/tla/CommunityModules-deps.jar tlc2.TLC -workers 1 -metadir "$2" -cleanup -noGenerateSpecTE -checkpoint 0 -config /verif/spec/Monitor.cfg /verif/spec/Monitor.tla
